@@ -194,6 +194,34 @@ def build():
                        'forall(0, len(UNI(stype)), lambda k: seq_get(objs, k) == seq_get(UNI(stype), k))',
                        'forall(0, len(INTER(stype)), lambda k: seq_get(objs, len(UNI(stype)) + k) == seq_get(INTER(stype), k))'])},
         hints={'var_types': {'objs': 'Seq[TypeT]'}, 'callee_views': {'try_type_rewrite': None}})
+
+    # F6  stmtctx._declare_view_from_schema: the compiled body of a schema alias / global is cached per (alias, SECURITY CONTEXT).  The copy compiled while access
+    #     policies are being compiled (rewrites deliberately off) must never be handed to the query body, and vice versa:
+    #     every cache entry was compiled under the security context it is filed under (CU = "compiled under"), and what is returned was compiled under the caller's.
+    STM = 'edb/edgeql/compiler/stmtctx.py'
+    w.refclass('VSet', {'path_id': 'Obj', 'is_schema_alias': 'bool'})
+    w.ufunc('SEC', ['Ctx'], 'Obj'); w.ufunc('CU', ['VSet'], 'Obj')
+    w.classes['Env']['schema_view_cache'] = 'Map[Tuple[TypeT,Obj],Tuple[TypeT,VSet]]'
+    w.classes['Ctx'].update({'current_schema_views': 'Seq[TypeT]', 'aliased_views': 'Map[Obj,Opt[Obj]]'})
+    w.ext_methods['Ctx.get_security_context'] = dict(params={}, returns='Obj', returns_expr='SEC(self)')
+    w.ext_methods['Ctx.schema_factoring'] = dict(params={}, returns='none')
+    w.ext_methods['TypeT.get_expr'] = dict(params={'schema': 'Obj'}, returns='Opt[Obj]')
+    w.ext_methods['TypeT.get_name'] = dict(params={'schema': 'Obj'}, returns='Obj')
+    w.ext_methods['Obj.parse'] = dict(params={}, returns='Obj')
+    w.ext_methods['Obj.replace_namespace'] = dict(params={'ns': 'Obj'}, returns='Obj')
+    w.trusted.append('stmtctx: a context derived with detached() / new() has the security context of the context it was derived from; declare_view compiles under the security context of the context it is given')
+    XV = {'declare_view': dict(params={'expr': 'Obj', 'alias': 'Obj', 'binding_kind': 'Obj', 'fully_detached': 'bool', 'ctx': 'Ctx'}, returns='VSet', modifies=['$alloc', 'Ctx.aliased_views'],
+                               ensures=['CU(result) == SEC(ctx)', 'not allocated_before(result)'] if False else ['CU(result) == SEC(ctx)'], raises={'QueryError': {}}),
+          'setgen.get_set_type': dict(params={'ir_set': 'Obj', 'ctx': 'Ctx'}, returns='TypeT')}
+    w.opaque_exprs['irast.BindingKind.Schema'] = 'Obj'; w.opaque_exprs['context.Exposure.UNEXPOSED'] = 'Obj'
+    w.ext_methods['Ctx.detached']['ensures'] = SAME_ENV + ['SEC(result) == SEC(self)']
+    w.ext_methods['Ctx.new']['ensures'] = SAME_ENV + ['SEC(result) == SEC(self)']
+    CINV = 'forall(TypeT, Obj, lambda v, sc: implies((v, sc) in ctx.env.schema_view_cache, CU(ctx.env.schema_view_cache[(v, sc)][1]) == sc))'
+    w.contract(STM, '_declare_view_from_schema', params={'viewcls': 'TypeT', 'ctx': 'Ctx'}, returns='Tuple[TypeT,VSet]',
+        requires=[CINV], modifies=['Env.schema_view_cache', 'Ctx.current_schema_views', 'Ctx.expr_exposed', 'Ctx.aliased_views', 'VSet.path_id', 'VSet.is_schema_alias', '$alloc'],
+        ensures=['CU(result[1]) == SEC(ctx)', CINV],
+        raises={'QueryError': {}, 'AssertionError': {}, 'KeyError': {}})
+    w.contracts['%s:_declare_view_from_schema' % STM].hints['ext_funcs'] = XV
     return w
 
 # ---------------------------------------------------------------------------------------------------------------------
@@ -243,4 +271,20 @@ def extra_obligations(w, tier, seed):
         walk(tree, frozenset())
     out.append(ob('scan/pending-rewrites/mutated-only-on-newrel-level', 'edb/pgsql/compiler: pending_type_rewrite_ctes is mutated only on the level object bound by `with <ctx>.newrel() as X:` (and assigned only in context.py)',
                   sites >= 1 and not bad, 'edb/pgsql/compiler: %s (mutation sites: %d)' % (bad, sites), undecided=(sites == 0)))
+    # (c) the cache of compiled schema aliases is keyed by the security context, unconditionally (F6 proves what follows from that on the real body; this shape
+    #     obligation gives a definite verdict when the key expression itself is rewritten into something outside the verifier's subset)
+    fn, _ = repo.find_def('edb/edgeql/compiler/stmtctx.py', '_declare_view_from_schema')
+    keys = [ast.unparse(n.value) for n in ast.walk(fn) if isinstance(n, ast.Assign) and len(n.targets) == 1 and ast.unparse(n.targets[0]) == 'key']
+    uses = [ast.unparse(n) for n in ast.walk(fn) if isinstance(n, ast.Subscript) and ast.unparse(n.value).endswith('schema_view_cache')] + \
+           [ast.unparse(n) for n in ast.walk(fn) if isinstance(n, ast.Call) and ast.unparse(n.func).endswith('schema_view_cache.get')]
+    ok = keys == ['(viewcls, ctx.get_security_context())'] and bool(uses) and all(u.endswith('[key]') or u.endswith('get(key)') for u in uses)
+    out.append(ob('scan/schema-view-cache/keyed-by-security-context', '_declare_view_from_schema: the alias cache is read and written under key = (viewcls, ctx.get_security_context())', ok,
+                  'stmtctx.py:_declare_view_from_schema: key = %s; cache accesses %s' % (keys, uses), undecided=(not keys)))
+    # (d) union / intersection types: the loop that compiles the components' rewrites visits every component (F5c proves that then all of them are registered;
+    #     a loop that can be left early makes that proof time out instead of failing -- this obligation gives the definite verdict)
+    fn, _ = repo.find_def('edb/edgeql/compiler/policies.py', 'try_type_rewrite')
+    loops_ = [n for n in ast.walk(fn) if isinstance(n, ast.For) and ast.unparse(n.iter) == 'objs']
+    early = [type(x).__name__ for l in loops_ for x in ast.walk(l) if isinstance(x, (ast.Break, ast.Return, ast.Continue))]
+    out.append(ob('scan/try_type_rewrite/compound-visits-every-component', 'try_type_rewrite: the loop over the components of a union / intersection type has no break / continue / return',
+                  len(loops_) == 1 and not early, 'policies.py:try_type_rewrite: loops over objs: %d, early exits: %s' % (len(loops_), early), undecided=(len(loops_) != 1)))
     return out
